@@ -297,7 +297,7 @@ def run_args(ctx):
              # text that is a TEMPLATE for one of Python's formatting mini-languages (error messages are built from the argument)
              "{}", "{0}", "a{b}c", "{host}.example.com", "x{0.real}y", "{!r}{}{}", "{0[0]}", "{:>99999999999}", "%s", "%(a)s", "%d%d", "%*d", "${x}", "\\N{BULLET}", "{", "}", "{{}}", "{0!z}",
              # invalid punycode / odd A-labels (the decoders' error paths)
-             "xn--0.com", "xn--zz", "xn--a.example", "www.xn--999999999.org", "xn--", "XN--0", "xn--\u00e9"]
+             "m\u00fcnchen.node7", "\u043f\u0440\u0438\u043c\u0435\u0440.srv2", "\uff11\uff12\uff17.\uff10.\uff10.\uff11", "\u00e91", "b\u00fccher.9", "[\uff10::\uff11]", "\u00e9:1", "xn--0.com", "xn--zz", "xn--a.example", "www.xn--999999999.org", "xn--", "XN--0", "xn--\u00e9"]
     texts = ("".join(t) for L in range(0, maxlen + 2) for t in itertools.product(ALPHA, repeat=L))
     n4 = len(ALPHA) ** maxlen
     for t in itertools.chain(extra, texts):
